@@ -65,7 +65,7 @@ C10Cases == {[param |-> p, classes |-> c] : p \in Params, c \in SeqsUpTo(Classes
 
 (* C14: mutation scripts over the message templates: operator, one or two positions (eighths of the message) *)
 Templates == {"hello", "reply-ok", "reply-errors", "reply-data", "reply-bare", "load-ok", "load-errors",
-              "reply-errors-ext", "reply-bare-error"}
+              "reply-errors-ext", "reply-bare-error", "load-count-only"}
 (* templates whose text is full of multi-byte characters: every byte position is cut / made invalid *)
 NonAscii == {"reply-nonascii", "reply-data-nonascii"}
 C14Cases ==
